@@ -113,6 +113,9 @@ pub struct Stats {
     pub excluded: BTreeMap<String, u64>,
     pub samples: Vec<Value>,
     pub exhaustive: bool,
+    /// non-trivial cases that are distinct by construction (enumerated, not hashed)
+    #[serde(default)]
+    pub distinct_enumerated: u64,
 }
 
 impl Stats {
@@ -134,7 +137,25 @@ impl Stats {
             }
         }
     }
+    /// Records a case of an enumeration (distinct from every other case by construction).
+    pub fn record_enumerated(&mut self, case_json: impl FnOnce() -> Value, out: &Outcome) {
+        self.evaluations += 1;
+        for c in &out.classes {
+            *self.classes.entry((*c).to_string()).or_default() += 1;
+        }
+        if out.nontrivial {
+            self.nontrivial += 1;
+            self.distinct_enumerated += 1;
+            if self.samples.len() < 3 && self.distinct_enumerated % 1000 == 1 {
+                self.samples.push(case_json());
+            }
+        }
+    }
+    pub fn distinct(&self) -> u64 {
+        self.nontrivial_hashes.len() as u64 + self.distinct_enumerated
+    }
     pub fn merge(&mut self, other: Stats) {
+        self.distinct_enumerated += other.distinct_enumerated;
         self.evaluations += other.evaluations;
         self.nontrivial += other.nontrivial;
         self.nontrivial_hashes.extend(other.nontrivial_hashes);
